@@ -13,10 +13,14 @@
     when [quals] says so, trailing slash when [trailing]; [render_with esc] writes each key's text
     with [esc], ANY function that url.QueryUnescape decodes back and that leaves no raw '/', ','
     or '?' ([valid_enc]: the reference encoder, lower-case hex, over-encoding, '+' for space...).  [find pfx kids data start path] is
-    Selection.Find called on the selection at [start]. *)
+    Selection.Find called on the selection at [start] over the reference store (whose nodes hand
+    back the key of a lookup request); [find_n ans ...] is Selection.Find over nodes that answer a
+    lookup by key with the reported key [ans] (Tree/FindNode.v: selectListItem takes the reported
+    key, or the request's key when none is reported); [legal_ans ans]: what Node.Next's contract
+    allows - no key, the request's key, or the key values the entry holds. *)
 From Coq Require Import ZArith List Bool Strings.Byte.
 From YV Require Import Val.Model Tree.Schema Tree.Editor Tree.Pct Tree.PctProofs Tree.KeyText Tree.KeyTextProofs
-     Tree.Find Tree.FindText Tree.FindProofs Tree.FindTheorems.
+     Tree.Find Tree.FindText Tree.FindProofs Tree.FindTheorems Tree.FindNode Tree.FindNodeProofs.
 Import ListNotations.
 
 (** url.QueryUnescape inverts the reference percent-encoder on every byte string *)
@@ -115,3 +119,82 @@ Example C08_old_path_string_refuted :
   find [x6d] ex_kids ex_data [] (path_string_nomod_old ex_kids [SName 0; SKey 0 ex_key]) <> FOk (Some [SName 0; SKey 0 ex_key]).
 Proof. exact path_string_old_refuted. Qed.
 Print Assumptions C08_old_path_string_refuted.
+
+(** ** any node implementation within Node.Next's contract (Tree/FindNode.v, Tree/FindNodeProofs.v) *)
+
+(** whatever the nodes report as the key of an entry looked up by key - nothing, the request's key,
+    the entry's own key values - Find has the same outcome as over the reference store for EVERY
+    path (well-formed or not) and EVERY start selection: no selection / the same error / a selection
+    at the same schema positions with key values equal as val.Equal decides *)
+Theorem C08_find_any_node : forall ans, legal_ans ans -> forall pfx kids data start path,
+  fres_eqv (find_n ans pfx kids data start path) (find pfx kids data start path).
+Proof. exact find_n_eqv. Qed.
+Print Assumptions C08_find_any_node.
+
+(** nodes that report no key, or the request's: literally the same selection, keys included *)
+Theorem C08_find_nil_key_node_exact : forall ans, echo_or_nil ans -> forall pfx kids data start path,
+  find_n ans pfx kids data start path = find pfx kids data start path.
+Proof. exact find_n_exact. Qed.
+Print Assumptions C08_find_nil_key_node_exact.
+
+(** the found selection carries the key values of the addressed entry (same schema positions, same
+    key values), from every start selection, over every node within the contract *)
+Theorem C08_find_render_any_node : forall ans esc, valid_enc esc -> legal_ans ans ->
+  forall pfx kids data base ext bk bd l quals trailing cur,
+  resolve (AtCont kids data) base = Some (AtCont bk bd) ->
+  loc_ok bk l -> resolve (AtCont bk bd) l = Some cur ->
+  exists l', find_n ans pfx kids data (base ++ ext) (ups (chain_len (rev ext)) ++ render_with esc quals trailing bk l)
+             = FOk (Some l') /\ loc_eqb l' (base ++ l) = true.
+Proof. exact find_n_render_from. Qed.
+Print Assumptions C08_find_render_any_node.
+
+Theorem C08_find_absent_none_any_node : forall ans esc, valid_enc esc -> legal_ans ans ->
+  forall pfx kids data base ext bk bd l quals trailing,
+  resolve (AtCont kids data) base = Some (AtCont bk bd) ->
+  loc_ok bk l -> resolve (AtCont bk bd) l = None ->
+  find_n ans pfx kids data (base ++ ext) (ups (chain_len (rev ext)) ++ render_with esc quals trailing bk l) = FOk None.
+Proof. exact find_n_absent_none. Qed.
+Print Assumptions C08_find_absent_none_any_node.
+
+Theorem C08_find_unknown_notfound_any_node : forall ans esc, valid_enc esc -> legal_ans ans ->
+  forall pfx kids data pre quals name more sk,
+  loc_ok kids pre -> scope_after kids pre = Some sk ->
+  ident_ok name = true -> lookup_name sk name O = None ->
+  Forall (fun s => free slash s /\ free qmark s) more ->
+  find_n ans pfx kids data [] (join slash (render_segs esc quals kids pre ++ name :: more)) = FErr FNotFound.
+Proof. exact find_n_unknown_notfound. Qed.
+Print Assumptions C08_find_unknown_notfound_any_node.
+
+(** the path of the found selection identifies the same location, over every such node *)
+Theorem C08_path_string_identifies_any_node : forall ans, legal_ans ans -> forall pfx kids data l cur,
+  loc_ok kids l -> resolve (AtCont kids data) l = Some cur ->
+  exists l', find_n ans pfx kids data [] (path_string_nomod kids l) = FOk (Some l') /\ loc_eqb l' l = true.
+Proof. exact path_string_identifies_n. Qed.
+Print Assumptions C08_path_string_identifies_any_node.
+
+(** the hypothesis is met by every behaviour the check serves data with (echo / nil / stored, all
+    lists alike or by position) *)
+Example C08_served_nodes_within_contract : forall p, legal_ans (ans_of p).
+Proof. exact ans_of_legal. Qed.
+Print Assumptions C08_served_nodes_within_contract.
+
+(** selectListItem's fallback [if key == nil { key = r.Key }] carries the clause: without it (or
+    narrowed to new entries, which Find never creates) a node that reports no key for a lookup
+    yields a selection without its key, whose rendered path Find refuses; with it the entry is
+    found under its key *)
+Example C08_no_fallback_loses_key :
+  find_gen false (ans_of (PAll KNil)) [x6d] ex_kids ex_data [] (render [] false ex_kids ex_loc)
+  = FOk (Some [SName 0; SName 0; SName 2]).
+Proof. exact no_fallback_loses_key. Qed.
+Print Assumptions C08_no_fallback_loses_key.
+
+Example C08_no_fallback_path_refuted :
+  find_n (ans_of (PAll KNil)) [x6d] ex_kids ex_data [] (path_string_nomod ex_kids [SName 0; SName 0; SName 2])
+  = FErr FOther.
+Proof. exact no_fallback_path_refuted. Qed.
+Print Assumptions C08_no_fallback_path_refuted.
+
+Example C08_fallback_keeps_key :
+  find_n (ans_of (PAll KNil)) [x6d] ex_kids ex_data [] (render [] false ex_kids ex_loc) = FOk (Some ex_loc).
+Proof. exact fallback_keeps_key. Qed.
+Print Assumptions C08_fallback_keeps_key.
